@@ -11,6 +11,10 @@ TRUSTED = ("Trusted base: g++ 12 ASan/UBSan runtimes and libstdc++ assertions, t
 
 # id -> (category, technique, text, design_ref)
 CHECKS = {
+    "C01": ("exploration", "runtime monitor: byte-level fixed-point oracle over real, float-mutated, API-built and hook-synthesised files (every block type x version), under ASan/UBSan",
+            "For each accepted input the raw-saved normal form must reload and re-save byte-identically (diffed block by block through an independent header parser) and the default "
+            "save must converge within two rounds. Inputs include a populated instance of each of the 304 registered block types in each of 14 versions, synthesised by answering the "
+            "library's own reader. Held-on-observed-executions is the strongest claim execution can give for an all-inputs property; breadth comes from type x version enumeration.", "3/C01"),
     "C05": ("exploration", "hook-based runtime monitor: set of NiRef/NiStringRef objects passing through Sync vs the owner's enumerators, over typed-synthesised instances of every block type x version",
             "All 304 registered block types x 14 versions are instantiated with populated fields by answering the reader through the typed read hook; every reference and "
             "string index that is actually serialised (both directions) must be reported by GetChildRefs/GetPtrs/GetStringRefs, and GetChildIndices must agree with GetChildRefs. "
